@@ -280,6 +280,173 @@ pub fn clauses() -> Vec<Clause> {
     ]
 }
 
+/// Native f32 / f64: (a) integer vectors times 2^k over the whole window in
+/// which lengths and squared lengths stay normal -- magnitude, normalize,
+/// normalize_to, project_on and distance against an f64 / exact-integer model
+/// (allowance 128 eps); a guard with an absolute threshold (`magnitude2 <=
+/// epsilon => zero vector`) is wrong exactly on the short vectors of this
+/// family.  (b) nearly parallel and nearly anti-parallel vectors in 2-D and
+/// 3-D whose angle is known in closed form: v = k*u + 2^-j*w with integer u and
+/// an integer w perpendicular to u, all components exactly representable, so
+/// angle(u,v) = atan2(|w| 2^-j, k|u|); the cross / perp-dot form is accurate to
+/// a few eps *absolutely* here (allowance 256 eps rad), while a form that goes
+/// through 1 - cos^2 or acos loses eps/angle.
+pub fn native_scaled(cfg: &cgv_core::fw::RunCfg, extra: &mut cgv_core::fw::Extra) {
+    use cgmath::{BaseFloat, Vector2 as V2};
+    use cgv_core::acc::Acc;
+    use serde_json::json;
+    fn scaled<T: BaseFloat>(tag: &str, vi: [i64; 4], ui: [i64; 4], k: i32, m: f64, acc: &mut Acc, inputs: &dyn Fn() -> serde_json::Value) {
+        let eps = T::epsilon().to_f64().unwrap();
+        let s = (2.0f64).powi(k);
+        let f = |x: f64| T::from(x).unwrap();
+        let g = |x: T| x.to_f64().unwrap();
+        let tol = 128.0 * eps;
+        for n in 1..=4usize {
+            let len2: i64 = vi[..n].iter().map(|x| x * x).sum();
+            if len2 == 0 {
+                continue;
+            }
+            let len = (len2 as f64).sqrt();
+            let comps: Vec<T> = vi[..n].iter().map(|x| f(*x as f64 * s)).collect();
+            let ucomps: Vec<T> = ui[..n].iter().map(|x| f(*x as f64 * s)).collect();
+            let (mag, mag2, nrm, nto, dist): (T, T, Vec<T>, Vec<T>, T) = match n {
+                1 => {
+                    let (v, u) = (Vector1::new(comps[0]), Vector1::new(ucomps[0]));
+                    (v.magnitude(), v.magnitude2(), vec![v.normalize().x], vec![v.normalize_to(f(m)).x], v.distance(u))
+                }
+                2 => {
+                    let (v, u) = (V2::new(comps[0], comps[1]), V2::new(ucomps[0], ucomps[1]));
+                    let (a, b) = (v.normalize(), v.normalize_to(f(m)));
+                    (v.magnitude(), v.magnitude2(), vec![a.x, a.y], vec![b.x, b.y], v.distance(u))
+                }
+                3 => {
+                    let (v, u) = (Vector3::new(comps[0], comps[1], comps[2]), Vector3::new(ucomps[0], ucomps[1], ucomps[2]));
+                    let (a, b) = (v.normalize(), v.normalize_to(f(m)));
+                    (v.magnitude(), v.magnitude2(), vec![a.x, a.y, a.z], vec![b.x, b.y, b.z], v.distance(u))
+                }
+                _ => {
+                    let (v, u) = (Vector4::new(comps[0], comps[1], comps[2], comps[3]), Vector4::new(ucomps[0], ucomps[1], ucomps[2], ucomps[3]));
+                    let (a, b) = (v.normalize(), v.normalize_to(f(m)));
+                    (v.magnitude(), v.magnitude2(), vec![a.x, a.y, a.z, a.w], vec![b.x, b.y, b.z, b.w], v.distance(u))
+                }
+            };
+            acc.check(&format!("{tag} Vector{n} magnitude / 2^{k}"), g(mag) / s, len, tol * len, inputs);
+            acc.check(&format!("{tag} Vector{n} magnitude2 / 2^{}", 2 * k), g(mag2) / s / s, len2 as f64, tol * len2 as f64, inputs);
+            let d2: i64 = (0..n).map(|i| (vi[i] - ui[i]) * (vi[i] - ui[i])).sum();
+            acc.check(&format!("{tag} Vector{n} distance / 2^{k}"), g(dist) / s, (d2 as f64).sqrt(), tol * ((d2 as f64).sqrt() + len), inputs);
+            for i in 0..n {
+                let want = vi[i] as f64 / len;
+                acc.check(&format!("{tag} Vector{n} normalize()[{i}] at scale 2^{k}"), g(nrm[i]), want, tol, inputs);
+                acc.check(&format!("{tag} Vector{n} normalize_to({m})[{i}] at scale 2^{k}"), g(nto[i]), want * m, tol * m.abs(), inputs);
+            }
+        }
+        // quaternion (s, x, y, z) = vi
+        let len2: i64 = vi.iter().map(|x| x * x).sum();
+        if len2 != 0 {
+            let len = (len2 as f64).sqrt();
+            let q = Quaternion::new(f(vi[0] as f64 * s), f(vi[1] as f64 * s), f(vi[2] as f64 * s), f(vi[3] as f64 * s));
+            acc.check(&format!("{tag} Quaternion magnitude / 2^{k}"), g(q.magnitude()) / s, len, tol * len, inputs);
+            let nq = q.normalize();
+            for (i, c) in [nq.s, nq.v.x, nq.v.y, nq.v.z].iter().enumerate() {
+                acc.check(&format!("{tag} Quaternion normalize()[{i}] at scale 2^{k}"), g(*c), vi[i] as f64 / len, tol, inputs);
+            }
+        }
+        // project_on: 3-D, u onto v, both scaled (the result scales with u)
+        let (vv, uu) = (
+            Vector3::new(f(vi[0] as f64 * s), f(vi[1] as f64 * s), f(vi[2] as f64 * s)),
+            Vector3::new(f(ui[0] as f64), f(ui[1] as f64), f(ui[2] as f64)),
+        );
+        let l3: i64 = vi[..3].iter().map(|x| x * x).sum();
+        if l3 != 0 {
+            let dot: i64 = (0..3).map(|i| vi[i] * ui[i]).sum();
+            let pr = uu.project_on(vv);
+            let ul: f64 = (ui[..3].iter().map(|x| x * x).sum::<i64>() as f64).sqrt();
+            for i in 0..3 {
+                acc.check(&format!("{tag} project_on(u, 2^{k} v)[{i}]"), g(pr[i]), vi[i] as f64 * dot as f64 / l3 as f64, tol * (ul + 1.0), inputs);
+            }
+        }
+    }
+    fn near_parallel<T: BaseFloat>(tag: &str, u: [i64; 3], w: [i64; 3], kk: i64, j: i32, acc: &mut Acc, inputs: &dyn Fn() -> serde_json::Value) {
+        let eps = T::epsilon().to_f64().unwrap();
+        let f = |x: f64| T::from(x).unwrap();
+        let g = |x: T| x.to_f64().unwrap();
+        let sj = (2.0f64).powi(-j);
+        let tol = 256.0 * eps;
+        // 3-D
+        let ul2: i64 = u.iter().map(|x| x * x).sum();
+        let wl2: i64 = w.iter().map(|x| x * x).sum();
+        if ul2 != 0 && wl2 != 0 {
+            let uu = Vector3::new(f(u[0] as f64), f(u[1] as f64), f(u[2] as f64));
+            let vv = Vector3::new(f(kk as f64 * u[0] as f64 + w[0] as f64 * sj), f(kk as f64 * u[1] as f64 + w[1] as f64 * sj), f(kk as f64 * u[2] as f64 + w[2] as f64 * sj));
+            let want = ((wl2 as f64).sqrt() * sj).atan2(kk as f64 * (ul2 as f64).sqrt());
+            acc.check(&format!("{tag} Vector3 angle(u, {kk}u + 2^-{j} w)"), g(uu.angle(vv).0), want, tol, inputs);
+            acc.check(&format!("{tag} Vector3 angle({kk}u + 2^-{j} w, u)"), g(vv.angle(uu).0), want, tol, inputs);
+        }
+        // 2-D: w = rot90(u) (counter-clockwise) or its opposite
+        let u2l: i64 = u[0] * u[0] + u[1] * u[1];
+        if u2l != 0 {
+            let side = if w[0] >= 0 { 1.0 } else { -1.0 };
+            let (wx, wy) = (-(u[1] as f64) * side, u[0] as f64 * side);
+            let uu = V2::new(f(u[0] as f64), f(u[1] as f64));
+            let vv = V2::new(f(kk as f64 * u[0] as f64 + wx * sj), f(kk as f64 * u[1] as f64 + wy * sj));
+            let want = (side * sj).atan2(kk as f64);
+            acc.check(&format!("{tag} Vector2 angle(u, {kk}u + 2^-{j} rot90(u))"), g(uu.angle(vv).0), want, tol, inputs);
+            acc.check(&format!("{tag} Vector2 angle({kk}u + 2^-{j} rot90(u), u)"), g(vv.angle(uu).0), -want, tol, inputs);
+        }
+    }
+    let n = if cfg.tier == Tier::Quick { 3000 } else { 200_000 };
+    let mut acc = Acc::new("c11_scaled_and_nearly_parallel");
+    for i in 0..n {
+        let mut rng = Rng::for_case(cfg.seed, "c11_native_scaled", i);
+        let mut vi = [0i64; 4];
+        let mut ui = [0i64; 4];
+        for c in 0..4 {
+            vi[c] = rng.range(-15, 15);
+            ui[c] = rng.range(-15, 15);
+        }
+        if vi[0] == 0 {
+            vi[0] = 3;
+        }
+        let (k64, k32) = (rng.range(-500, 500) as i32, rng.range(-55, 55) as i32);
+        let m = rng.pick(&[0.5, 2.0, 3.0, 0.125, 7.0]);
+        // perpendicular integer vector: w = u x r
+        let r = [rng.range(-9, 9), rng.range(-9, 9), rng.range(-9, 9)];
+        let u3 = [ui[0], ui[1], ui[2]];
+        let w = [u3[1] * r[2] - u3[2] * r[1], u3[2] * r[0] - u3[0] * r[2], u3[0] * r[1] - u3[1] * r[0]];
+        let kk = rng.pick(&[1i64, 2, 3, -1, -2, -3]);
+        let (j64, j32) = (rng.range(3, 40) as i32, rng.range(3, 11) as i32);
+        acc.case("integer vectors * 2^k; u, k*u + 2^-j*w with w perpendicular to u");
+        let in64 = || json!({"v": vi, "u": ui, "scale_log2": k64, "w": w, "k": kk, "j": j64, "m": m, "type": "f64", "index": i});
+        let in32 = || json!({"v": vi, "u": ui, "scale_log2": k32, "w": w, "k": kk, "j": j32, "m": m, "type": "f32", "index": i});
+        match cgv_core::fw::catch(|| {
+            let mut local = Acc::new("c11_scaled_and_nearly_parallel");
+            scaled::<f64>("f64", vi, ui, k64, m, &mut local, &in64);
+            scaled::<f32>("f32", vi, ui, k32, m, &mut local, &in32);
+            near_parallel::<f64>("f64", u3, w, kk, j64, &mut local, &in64);
+            near_parallel::<f32>("f32", u3, w, kk, j32, &mut local, &in32);
+            local
+        }) {
+            Ok(l) => {
+                acc.checks += l.checks;
+                acc.worst = acc.worst.max(l.worst);
+                if acc.fail.is_none() {
+                    acc.fail = l.fail;
+                }
+            }
+            Err(p) => acc.truth(&format!("unexpected panic: {p}"), false, &in64),
+        }
+        if acc.failed() {
+            break;
+        }
+    }
+    acc.finish(extra, "f64 / exact-integer model; allowance 128 eps (relative) for lengths and directions, 256 eps rad (absolute) for the closed-form angles");
+}
+
+pub fn native_all(cfg: &cgv_core::fw::RunCfg, extra: &mut cgv_core::fw::Extra) {
+    native(cfg, extra);
+    native_scaled(cfg, extra);
+}
+
 pub const RULE: &str = "pairs (u,v) of dimension 1-4 (and quaternions, points): class 0 has rational lengths everywhere (u = k*unit rational point, v = u + such a vector) so that the exact engine decides every square root; class 1 arbitrary small rationals decided by enclosures; 2-D signed angle: v = k*Rot(theta)*u built by the model for theta on a 2^-20 grid in (-pi,pi) plus special values; normalize_to uses positive and negative magnitudes. Non-trivial = u with non-zero pairwise distinct components; distinct = distinct input tuples.";
 pub const ASSUME: &[&str] = &[
     "enclosure arithmetic as in C06; acos is evaluated on the argument clipped to [-1,1] (the property is stated over the reals)",
